@@ -373,3 +373,37 @@ def path_conds(node, stop=None):
                     out.append((c.child('cond'), False))
         prev, x = x, x.parent
     return out
+
+
+def path_atoms_with_guards(node, stop=None):
+    """path_atoms extended with the guard clauses that precede the node in its blocks (`if (c) { ...; continue; }` => !c afterwards)"""
+    from .flow import lvalue_key, _strip_casts
+    out = list(path_atoms(node))
+    for cnd, pol in path_conds(node, stop=stop):
+        # conditions of enclosing ifs are already in path_atoms; add only the guard clauses (preceding siblings)
+        if any(cnd is a for a in _enclosing_conds(node)):
+            continue
+        c = _strip_casts(cnd)
+        neg = not pol
+        if c.k == 'BinaryOperator' and c.op in ('==', '!='):
+            l, r = _strip_casts(c.child('lhs')), _strip_casts(c.child('rhs'))
+            for a, b in ((l, r), (r, l)):
+                if b is not None and b.cv is not None and lvalue_key(a) is not None and not (a.k == 'DeclRefExpr' and a.dk == 'enum'):
+                    out.append(('eq', lvalue_key(a), b.cv, (c.op == '==') != neg))
+                    break
+            else:
+                out.append(('other', ' '.join(c.text().split()), pol))
+        else:
+            k = lvalue_key(c)
+            out.append(('true', k, pol) if k else ('other', ' '.join(c.text().split()), pol))
+    return out
+
+
+def _enclosing_conds(node):
+    x, prev = node.parent, node
+    out = []
+    while x is not None:
+        if x.k == 'IfStmt' and (prev is x.child('then') or prev is x.child('else')):
+            out.append(x.child('cond'))
+        prev, x = x, x.parent
+    return out
